@@ -53,6 +53,12 @@ func (l loopSpec) ty() string {
 	return l.Ty
 }
 
+// low64 is the low 64 bits of x as an int64 (what `int(i)` prints for a 64-bit counter)
+func low64(x *big.Int) int64 {
+	m := new(big.Int).And(x, new(big.Int).SetUint64(^uint64(0)))
+	return int64(m.Uint64())
+}
+
 // wrapTo reduces x to the value range of the counter's type
 func wrapTo(ty string, x int64) int64 {
 	switch ty {
@@ -97,7 +103,7 @@ func (l loopSpec) sources() (plain, twin string) {
 	body := ind + "\tt += int(i)\n"
 	bodyTw := ind + "\tbodies++\n" + ind + "\tt += int(i)\n"
 	start := l.Start
-	if _, err := strconv.ParseInt(l.Start, 10, 64); err == nil && l.Ty != "" {
+	if _, ok := new(big.Int).SetString(l.Start, 10); ok && l.Ty != "" {
 		start = fmt.Sprintf("%s(%s)", T, l.Start) // `i := 7` would make the counter an int
 	}
 	guard := ind + "\tif guard++; guard > 10000 { panic(\"diverges\") }\n"
@@ -193,9 +199,32 @@ func genLoopSpec(r *Rng, idx int) loopSpec {
 			}
 		}
 	}
+	if l.Ty == "" && r.Chance(12) {
+		// 64-bit unsigned counters running above MaxInt64, also through a defined type and an alias
+		l.Ty = pick(r, []string{"uint64", "Addr", "Addr", "Off"})
+		base := new(big.Int)
+		base.SetString(pick(r, []string{"9223372036854775808", "18446603336221196288", "18446744073709551000"}), 10)
+		far := new(big.Int).Add(base, big.NewInt(int64(pick(r, []int{6, 9, 13}))))
+		st := pick(r, []int{1, 1, 2, 3})
+		if r.Chance(60) {
+			l.Start, l.Limit, l.Step, l.Cmp = base.String(), far.String(), st, pick(r, []string{"<", "<=", "!="})
+		} else {
+			l.Start, l.Limit, l.Step, l.Cmp = far.String(), base.String(), -st, pick(r, []string{">", ">=", "!="})
+		}
+		if l.Cmp == "!=" {
+			if l.Step > 0 {
+				l.Step, l.Limit = 1, far.String()
+			} else {
+				l.Step = -1
+			}
+		}
+		if l.Form == "cond-update" || l.Form == "top-with-break" {
+			l.Form = "top"
+		}
+	}
 	l.Nested = r.Chance(25)
 	l.Sibling = r.Chance(20)
-	if r.Chance(7) {
+	if l.Ty == "" && r.Chance(7) {
 		// multiplicative update: NOT a start + k*step variable; no summary of that shape may appear
 		l.Form, l.Start, l.Step = "geometric", pick(r, []string{"1", "2", "3"}), pick(r, []int{2, 3})
 		l.Cmp, l.Limit = pick(r, []string{"<", "<="}), pick(r, []string{"b", "40", "100"})
@@ -274,7 +303,7 @@ func evalSCEV(s loop.SCEV, env map[ssa.Value]*big.Int) (*big.Int, bool) {
 }
 
 func suiteLoops(c *Ctx) error {
-	c.Res.Rule = "generated counted loops (up/down; tests < <= > >= !=; steps 1,2,3,5 and negative; constant and parameter bounds; counters of type int and, in 30% of the loops, uint8 / int8 / uint16 / int32 with bounds next to the end of the range so that the counter can wrap around; forms: top-tested, a single exit test that is skipped on odd iterations (continue before the test), break-tested `for { if !(test) { break }; …}`, bottom-tested, with an extra break, with continue, with a conditionally doubled update, with a multiplicative update; optionally nested in an outer loop, optionally after a sibling loop with the same start and step) x 12 argument vectors; the real loop analysis of the plain function vs a natively executed instrumented twin recording the header values and body count; checked only where the analysis makes a claim (basic induction variable / evaluable trip count); non-trivial = the analysis made at least one claim and the loop ran at least once; distinct by (loop, arguments)"
+	c.Res.Rule = "generated counted loops (up/down; tests < <= > >= !=; steps 1,2,3,5 and negative; constant and parameter bounds; counters of type int and, in 30% of the loops, uint8 / int8 / uint16 / int32 with bounds next to the end of the range so that the counter can wrap around, and in 6% uint64 / a defined type over uint64 / an alias of it with bounds above MaxInt64; forms: top-tested, a single exit test that is skipped on odd iterations (continue before the test), break-tested `for { if !(test) { break }; …}`, bottom-tested, with an extra break, with continue, with a conditionally doubled update, with a multiplicative update; optionally nested in an outer loop, optionally after a sibling loop with the same start and step) x 12 argument vectors; the real loop analysis of the plain function vs a natively executed instrumented twin recording the header values and body count; checked only where the analysis makes a claim (basic induction variable / evaluable trip count); non-trivial = the analysis made at least one claim and the loop ran at least once; distinct by (loop, arguments)"
 	n := c.N
 	if n == 0 {
 		n = 120
@@ -282,8 +311,8 @@ func suiteLoops(c *Ctx) error {
 	r := NewRng(c.Seed)
 	var specs []loopSpec
 	var plain, twin strings.Builder
-	plain.WriteString("package genpkg\n\n")
-	twin.WriteString("package main\n\nimport \"fmt\"\n\n")
+	plain.WriteString("package genpkg\n\ntype Addr uint64\n\ntype Off = uint64\n\n")
+	twin.WriteString("package main\n\nimport \"fmt\"\n\ntype Addr uint64\n\ntype Off = uint64\n\n")
 	for i := 0; i < n; i++ {
 		l := genLoopSpec(r.Fork(), i)
 		specs = append(specs, l)
@@ -420,12 +449,12 @@ func suiteLoops(c *Ctx) error {
 					if iv.Phi.Comment != "i" {
 						continue // the accumulator or the outer variable, not the instrumented `i`
 					}
-				} else if s0.Int64() != ob.hdr[0] || st.Int64() != int64(l.Step) {
+				} else if low64(s0) != ob.hdr[0] || st.Int64() != int64(l.Step) {
 					continue // no source name on the phi: fall back to matching start and step
 				}
 				claimed = true
 				for k, v := range ob.hdr {
-					want := wrapTo(l.Ty, s0.Int64()+int64(k)*st.Int64()) // "modulo its integer width"
+					want := wrapTo(l.Ty, low64(s0)+int64(k)*st.Int64()) // "modulo its integer width"
 					if v != want {
 						rp["iv_start"], rp["iv_step"] = s0.String(), st.String()
 						c.Violate("C12", "C12/induction-variable-closed-form-wrong:"+l.Form, fmt.Sprintf("%s(a=%d,b=%d): the analysis says i = %s + k*%s but the %d-th header value is %d", l.Name, ab[0], ab[1], s0, st, k, v), rp)
